@@ -83,6 +83,12 @@ struct State {
     npats: usize,
     pads: [[u8; PADMAX]; 2],
     padlen: [usize; 2],
+    // copy of the last block reported with kind 3/4/5 (for VERIF_LOUD diagnostics)
+    dump: [u8; PADMAX],
+    dumplen: usize,
+    stale_limb_blocks: usize,
+    stale_dump: [u8; PADMAX],
+    stale_dumplen: usize,
 }
 
 struct Shared {
@@ -105,6 +111,11 @@ static SH: Shared = Shared {
         npats: 0,
         pads: [[0; PADMAX]; 2],
         padlen: [0; 2],
+        dump: [0; PADMAX],
+        dumplen: 0,
+        stale_limb_blocks: 0,
+        stale_dump: [0; PADMAX],
+        stale_dumplen: 0,
     }),
 };
 
@@ -156,6 +167,11 @@ fn scan_block(st: &State, block: &[u8]) -> (bool, bool, usize, usize) {
 }
 
 impl State {
+    fn keep_dump(&mut self, block: &[u8]) {
+        let n = core::cmp::min(block.len(), PADMAX);
+        self.dump[..n].copy_from_slice(&block[..n]);
+        self.dumplen = n;
+    }
     fn push_event(&mut self, size: usize, kind: u8) {
         if self.nevents < MAXE {
             self.events[self.nevents] = (size, kind);
@@ -209,24 +225,41 @@ impl State {
         };
         let block = unsafe { core::slice::from_raw_parts(addr as *const u8, size) };
         let (full, any, _, _) = scan_block(self, block);
+        // did this block hold the WHOLE secret (some encoding) at some scan point of its life?
+        let held_full = tracked.map_or(false, |b| b.flagged && b.len >= 32);
         if full {
             if realloc {
+                self.keep_dump(block);
                 self.push_event(size, K_REALLOC_TAINTED);
             } else if self.is_pad_image(block) {
                 self.push_event(size, K_UPSTREAM_PAD);
             } else {
+                self.keep_dump(block);
                 self.push_event(size, K_FREED_TAINTED);
             }
-        } else if any {
-            self.push_event(size, K_RESIDUE);
-        } else if let Some(b) = tracked {
-            if b.flagged && !realloc {
-                let end = core::cmp::min(b.off + b.len, size);
-                if block[core::cmp::min(b.off, end)..end].iter().all(|x| *x == 0) {
-                    self.push_event(size, K_SCRUBBED);
-                } else {
-                    self.push_event(size, K_RESIDUE);
-                }
+        } else if held_full {
+            // a buffer of the whole secret: every byte of the region it occupied must be zero at free time,
+            // and no limb of it may survive anywhere in the block
+            let b = tracked.unwrap();
+            let end = core::cmp::min(b.off + b.len, size);
+            let zero = block[core::cmp::min(b.off, end)..end].iter().all(|x| *x == 0);
+            if any || (!realloc && !zero) {
+                self.keep_dump(block);
+                self.push_event(size, K_RESIDUE);
+            } else if !realloc {
+                self.push_event(size, K_SCRUBBED);
+            }
+        } else if any || tracked.map_or(false, |b| b.flagged) {
+            // a block that never held the whole secret but holds (held) one of its 8-byte limbs: not one of the
+            // secret buffers of the APIs.  Seen in practice: anyhow::Error objects whose uninitialised padding is
+            // copied from a stack frame where expose_felts()/bytes_to_digest temporaries lived.  Counted and
+            // reported separately (notes `stale_limb_*`), not part of the (size, kind) list compared to the model:
+            // whether it happens depends on the stack layout of the run.
+            self.stale_limb_blocks += 1;
+            if self.stale_dumplen == 0 {
+                let n = core::cmp::min(block.len(), PADMAX);
+                self.stale_dump[..n].copy_from_slice(&block[..n]);
+                self.stale_dumplen = n;
             }
         }
         tracked
@@ -334,6 +367,8 @@ fn start_scan() {
     with_state(|st| {
         st.nblocks = 0;
         st.nevents = 0;
+        st.stale_limb_blocks = 0;
+        st.stale_dumplen = 0;
         st.scanning = true;
     });
 }
@@ -350,6 +385,16 @@ fn stop_scan(out: &mut Vec<i128>) {
         out.push(*size as i128);
         out.push(*kind as i128);
     }
+    if std::env::var("VERIF_LOUD").is_ok() && ev[..n].iter().any(|e| matches!(e.1, 3 | 4 | 5)) {
+        let (d, l) = with_state(|st| (st.dump, st.dumplen));
+        eprintln!("leaking block ({} bytes): {}", l, hex::encode(&d[..l]));
+    }
+}
+
+/// (number of blocks with a stray limb of the secret during the last sequence, image of the first one)
+fn take_stale() -> (usize, Vec<u8>) {
+    let (n, d, l) = with_state(|st| (st.stale_limb_blocks, st.stale_dump, st.stale_dumplen));
+    (n, d[..l].to_vec())
 }
 
 /// a harness-side finding, put in the event list (allocation free)
@@ -680,7 +725,7 @@ fn secrets(r: &mut Rng, thorough: bool) -> Vec<SecretCase> {
         SecretCase { kind: "counting", limbs: digest_limbs(&core::array::from_fn(|i| (i + 1) as u8)) },
         SecretCase { kind: "p-1", limbs: [P - 1; 4] },
         SecretCase { kind: "0x11", limbs: digest_limbs(&[0x11u8; 32]) },
-        SecretCase { kind: "edges", limbs: [P - 1, 1 << 32, 1 << 63, 0x0123_4567_89AB_CDEF] },
+        SecretCase { kind: "edges", limbs: [P - 1, P - 2, 0x1_FFFF_FFFF, 0x0123_4567_89AB_CDEF] },
     ];
     let n = if thorough { 7 } else { 3 };
     while v.len() < 5 + n {
@@ -780,6 +825,7 @@ fn main() {
     // ---- fid 3301: call sequences
     let secs = secrets(&mut r, thorough);
     let mut n_seq = 0usize;
+    let (mut stale_blocks, mut stale_seqs, mut stale_example) = (0usize, 0usize, String::new());
     for (si, s) in secs.iter().enumerate() {
         let p = build_params(&mut r, &s.limbs);
         install_patterns(&p, &s.limbs);
@@ -791,6 +837,17 @@ fn main() {
         };
         let mut emit = |o: &mut Out, ops: &[u64], tag: &str| {
             let out = run_sequence(ops, &p, true);
+            let (n, img) = take_stale();
+            if n > 0 {
+                stale_blocks += n;
+                stale_seqs += 1;
+                if stale_example.is_empty() {
+                    stale_example = format!(
+                        "secret {} limbs {:x?}; call codes {:?}; {}-byte block {}",
+                        s.kind, s.limbs, ops, img.len(), hex::encode(&img)
+                    );
+                }
+            }
             o.case(3301, tag, &[seg_u64(ops), par.clone()], &out);
             n_seq += 1;
         };
@@ -804,8 +861,8 @@ fn main() {
                 emit(&mut o, &[a, b], &format!("len2/{}", s.kind));
             }
         }
-        // length 3: all of them (thorough: every secret; quick: the first secret), otherwise a sample
-        if thorough || si == 0 {
+        // length 3: all of them (thorough: every secret; quick: the ASCII and the random secrets), otherwise a sample
+        if thorough || si == 0 || s.kind == "random" {
             for a in 0..N_OPS {
                 for b in 0..N_OPS {
                     for c in 0..N_OPS {
@@ -842,9 +899,15 @@ fn main() {
         emit(&mut o, &upstream, &format!("upstream-test/{}", s.kind));
     }
     o.note("sequences", &n_seq.to_string());
+    // FINDING CANDIDATE (not part of the compared observation, layout dependent): heap blocks that are not secret
+    // buffers but contain one 8-byte limb of the secret when they are freed
+    o.note("stale_limb_blocks", &format!("{} blocks in {} of {} sequences", stale_blocks, stale_seqs, n_seq));
+    if !stale_example.is_empty() {
+        o.note("stale_limb_example", &stale_example);
+    }
     o.note(
         "excluded_secrets",
-        "all-zero and any secret with a limb < 2^32: its limb image (4+ zero bytes) occurs in unrelated blocks (pad zeros, transfer-count felts)",
+        "all-zero and any secret with a limb < 2^32: its limb image (4+ zero bytes) occurs in unrelated blocks (pad zeros, transfer-count felts); limb 2^63 avoided (niche value of Option<String>/Vec capacities)",
     );
 
     // ---- fid 3302: Secret::new on valid and invalid buffers
